@@ -1750,6 +1750,71 @@ func (e *Engine) forbidGlobalObligations(p string) []*Obligation {
 	return out
 }
 
+// storesOnlyObligations: "storesonly" - a local list or flag that several
+// closures of one function share is assigned only where the contract says.
+func (e *Engine) storesOnlyObligations(p string) []*Obligation {
+	var out []*Obligation
+	for _, r := range e.cs.StoresOnlys {
+		if !hasProp(r.Props, p) {
+			continue
+		}
+		detail := ""
+		root, ok := e.funcByKey[r.Func]
+		if !ok {
+			detail = "unknown function " + r.Func
+		} else {
+			allowed := map[string]bool{}
+			for _, a := range r.Allowed {
+				allowed[a] = true
+			}
+			var bad []string
+			stores := 0
+			var walk func(f *ssa.Function)
+			walk = func(f *ssa.Function) {
+				for _, b := range f.Blocks {
+					for _, ins := range b.Instrs {
+						st, ok := ins.(*ssa.Store)
+						if !ok {
+							continue
+						}
+						isVar := false
+						switch a := st.Addr.(type) {
+						case *ssa.FreeVar:
+							isVar = a.Name() == r.Var
+						case *ssa.Alloc:
+							isVar = a.Comment == r.Var && f == root
+						}
+						if !isVar {
+							continue
+						}
+						stores++
+						if !allowed[e.funcKey(f)] {
+							bad = append(bad, fmt.Sprintf("%s at %s", shortFuncName(f), e.fset.Position(st.Pos())))
+						}
+					}
+				}
+				for _, c := range f.AnonFuncs {
+					walk(c)
+				}
+			}
+			walk(root)
+			if len(bad) > 0 {
+				detail = r.Var + " is assigned in " + strings.Join(bad, "; ")
+			} else if stores == 0 {
+				detail = "no assignment to an addressable variable " + r.Var + " in " + shortKey(r.Func)
+			}
+		}
+		ft := e.newFT(nil)
+		goal := "true"
+		if detail != "" {
+			goal = "false"
+		}
+		out = append(out, &Obligation{Name: "scan/storesonly " + shortKey(r.Func) + ":" + r.Var, Kind: "scan", Props: r.Props, Func: "scan", Pos: fmt.Sprintf("%s:%d", filepath.Base(r.File), r.Line),
+			Text: r.Var + " of " + shortKey(r.Func) + " is assigned only in the listed functions", Goal: goal, Reach: "true", ft: ft, SrcLine: detail})
+	}
+	return out
+}
+
 func shortKey(k string) string {
 	if i := strings.LastIndex(k, "/"); i >= 0 {
 		return k[i+1:]
